@@ -306,10 +306,33 @@ func (b *Builder) Add(x, y *Term) *Term {
 	if x.Op == OAdd && x.Args[1].Op == ONeg && x.Args[1].Args[0] == y {
 		return x.Args[0]
 	}
+	// a - (a div m)*m = a mod m   (m constant > 0)
+	if r := b.divModPattern(x, y); r != nil {
+		return r
+	}
+	if r := b.divModPattern(y, x); r != nil {
+		return r
+	}
 	if !y.IsConst() && x.ID > y.ID && x.Op != OAdd {
 		x, y = y, x
 	}
 	return b.mk(&Term{Op: OAdd, Sort: SInt, Args: []*Term{x, y}, Lo: addB(x.Lo, y.Lo), Hi: addB(x.Hi, y.Hi)})
+}
+
+// divModPattern: a + (-( (a div m) * m )) -> a mod m
+func (b *Builder) divModPattern(a, n *Term) *Term {
+	if n.Op != ONeg {
+		return nil
+	}
+	p := n.Args[0]
+	if p.Op != OMul || !p.Args[1].IsConst() || p.Args[1].I.Sign() <= 0 {
+		return nil
+	}
+	d := p.Args[0]
+	if d.Op != ODiv || d.Args[0] != a || !d.Args[1].IsConst() || d.Args[1].I.Cmp(p.Args[1].I) != 0 {
+		return nil
+	}
+	return b.Mod(a, d.Args[1])
 }
 
 func (b *Builder) Neg(x *Term) *Term {
